@@ -412,6 +412,126 @@ theorem no_values_no_call (ph : Bytes) (req app : Option Handler) :
     afterHandler ph req app .none = [] := by
   simp [afterHandler, RetShape.arity]
 
+/-! ### the lookup is made at every return: a mid-chain `Map` decides all later returns -/
+
+def Step.isMapReq : Step → Bool | .mapReq _ => true | _ => false
+def Step.isMapApp : Step → Bool | .mapApp _ => true | _ => false
+
+theorem runChain_append (st : ChainSt) (a b : List Step) :
+    runChain st (a ++ b) = runChain (runChain st a) b := by
+  simp [runChain, List.foldl_append]
+
+/-- once written (or dead) no further handler runs -/
+theorem runChain_stuck (st : ChainSt) (steps : List Step) (h : st.out.continues = false) :
+    runChain st steps = st := by
+  induction steps with
+  | nil => rfl
+  | cons x xs ih => simp only [runChain, List.foldl_cons, ChainSt.step, h] at ih ⊢; simpa using ih
+
+theorem continues_of_later (st : ChainSt) (steps : List Step)
+    (h : (runChain st steps).out.continues = true) : st.out.continues = true := by
+  cases hc : st.out.continues with
+  | true => rfl
+  | false => rw [runChain_stuck st steps hc, hc] at h; exact h
+
+theorem step_req (st : ChainSt) (x : Step) (hx : x.isMapReq = false) : (st.step x).req = st.req := by
+  unfold ChainSt.step
+  split
+  · rfl
+  · cases x <;> simp [Step.isMapReq] at hx ⊢
+
+theorem step_app (st : ChainSt) (x : Step) (hx : x.isMapApp = false) : (st.step x).app = st.app := by
+  unfold ChainSt.step
+  split
+  · rfl
+  · cases x <;> simp [Step.isMapApp] at hx ⊢
+
+/-- handlers that do not map a ReturnHandler into the request scope leave its entry alone —
+    in particular handlers that RETURN values do -/
+theorem runChain_req (st : ChainSt) (steps : List Step) (h : ∀ x ∈ steps, x.isMapReq = false) :
+    (runChain st steps).req = st.req := by
+  induction steps generalizing st with
+  | nil => rfl
+  | cons x xs ih =>
+    simp only [runChain, List.foldl_cons]
+    have := ih (st.step x) (fun y hy => h y (by simp [hy]))
+    simp only [runChain] at this
+    rw [this, step_req st x (h x (by simp))]
+
+theorem runChain_app (st : ChainSt) (steps : List Step) (h : ∀ x ∈ steps, x.isMapApp = false) :
+    (runChain st steps).app = st.app := by
+  induction steps generalizing st with
+  | nil => rfl
+  | cons x xs ih =>
+    simp only [runChain, List.foldl_cons]
+    have := ih (st.step x) (fun y hy => h y (by simp [hy]))
+    simp only [runChain] at this
+    rw [this, step_app st x (h x (by simp))]
+
+/-- The handler used for a return is the one resolvable in the scope chain AT THAT MOMENT
+    (request scope, then app scope, then the table) — for the k-th return of a request as for
+    the first: the state `st` is arbitrary, whatever ran and returned before. -/
+theorem lookup_at_each_return (st : ChainSt) (ph : Bytes) (s : RetShape)
+    (hc : st.out.continues = true) :
+    (st.step (.ret ph s)).out = Out.run st.out (afterHandler ph st.req st.app s) ∧
+    (s.arity ≠ 0 → ∀ h, st.req = some h → (st.step (.ret ph s)).out = Out.run st.out (h s)) ∧
+    (s.arity ≠ 0 → ∀ h, st.req = none → st.app = some h → (st.step (.ret ph s)).out = Out.run st.out (h s)) := by
+  have h0 : (st.step (.ret ph s)).out = Out.run st.out (afterHandler ph st.req st.app s) := by
+    simp [ChainSt.step, hc, respondFrom]
+  refine ⟨h0, ?_, ?_⟩
+  · intro hs h hr; rw [h0, hr]; simp [afterHandler, resolve, hs]
+  · intro hs h hr ha; rw [h0, hr, ha]; simp [afterHandler, resolve, hs]
+
+/-- A `c.Map(ReturnHandler(h))` in the middle of the chain takes effect for the next return,
+    for ALL handlers `pre` before it (including handlers that already returned values and were
+    rendered by the table or by another handler) and all handlers `mid` between that do not map
+    again: if the chain gets that far, the values are rendered by `h`, not by the table. -/
+theorem midchain_map_takes_effect (st : ChainSt) (pre mid : List Step) (h : Handler) (ph : Bytes)
+    (s : RetShape) (hmid : ∀ x ∈ mid, x.isMapReq = false) (hs : s.arity ≠ 0)
+    (hc : (runChain st (pre ++ .mapReq h :: mid)).out.continues = true) :
+    (runChain st (pre ++ .mapReq h :: mid ++ [.ret ph s])).out =
+      Out.run (runChain st (pre ++ .mapReq h :: mid)).out (h s) := by
+  have e1 : pre ++ .mapReq h :: mid ++ [.ret ph s] = (pre ++ .mapReq h :: mid) ++ [.ret ph s] := by simp
+  have e2 : pre ++ .mapReq h :: mid = pre ++ ([.mapReq h] ++ mid) := by simp
+  rw [e1, runChain_append]
+  have hreq : (runChain st (pre ++ .mapReq h :: mid)).req = some h := by
+    rw [e2, runChain_append, runChain_append, runChain_req _ mid hmid]
+    have hc1 : (runChain st pre).out.continues = true := by
+      rw [e2, runChain_append] at hc; exact continues_of_later _ _ hc
+    have hc1' : (List.foldl ChainSt.step st pre).out.continues = true := hc1
+    simp [runChain, ChainSt.step, hc1']
+  exact (lookup_at_each_return _ ph s hc).2.1 hs h hreq
+
+/-- the same for a handler mapped into the app scope mid-request, as long as the request scope
+    holds none -/
+theorem midchain_app_map_takes_effect (st : ChainSt) (pre mid : List Step) (h : Handler) (ph : Bytes)
+    (s : RetShape) (hmid : ∀ x ∈ mid, x.isMapApp = false) (hs : s.arity ≠ 0)
+    (hreq : (runChain st (pre ++ .mapApp h :: mid)).req = none)
+    (hc : (runChain st (pre ++ .mapApp h :: mid)).out.continues = true) :
+    (runChain st (pre ++ .mapApp h :: mid ++ [.ret ph s])).out =
+      Out.run (runChain st (pre ++ .mapApp h :: mid)).out (h s) := by
+  have e1 : pre ++ .mapApp h :: mid ++ [.ret ph s] = (pre ++ .mapApp h :: mid) ++ [.ret ph s] := by simp
+  have e2 : pre ++ .mapApp h :: mid = pre ++ ([.mapApp h] ++ mid) := by simp
+  rw [e1, runChain_append]
+  have happ : (runChain st (pre ++ .mapApp h :: mid)).app = some h := by
+    rw [e2, runChain_append, runChain_append, runChain_app _ mid hmid]
+    have hc1 : (runChain st pre).out.continues = true := by
+      rw [e2, runChain_append] at hc; exact continues_of_later _ _ hc
+    have hc1' : (List.foldl ChainSt.step st pre).out.continues = true := hc1
+    simp [runChain, ChainSt.step, hc1']
+  exact (lookup_at_each_return _ ph s hc).2.2 hs h hreq happ
+
+-- non-vacuity: a nil error returned first (rendered by the table, writes nothing), then a
+-- handler is mapped, then a string is returned: the mapped handler answers (299), not the table
+example :
+    let h : Handler := fun _ => [.writeHeader 299]
+    let st := runChain (newRequest false none) [.ret [] (.one .ifaceNil), .mapReq h, .silent, .ret [] (.one (.str [120]))]
+    st.out.resp = ⟨299, [], false⟩ ∧ st.ran = 4 := by decide
+-- … and without the map the table does (200 "x")
+example :
+    (runChain (newRequest false none) [.ret [] (.one .ifaceNil), .silent, .ret [] (.one (.str [120]))]).out.resp
+      = ⟨200, [120], false⟩ := by decide
+
 /-! ### the original tail (finding F14), for comparison -/
 
 /-- before the repair a non-nil empty byte slice sent `200` with an empty body and stopped the
